@@ -176,6 +176,8 @@ struct World {
     genuine: Vec<Genuine>,
     n_payload: u64,
     seed: u64,
+    /// the never-presented token whose request sits in `genuine` (rich worlds only)
+    fresh: Option<crate::nsim::Minted>,
 }
 
 enum Obs {
@@ -203,6 +205,7 @@ impl World {
             clients.push(new_cli(&mut r, &srv, id, addr, timeout, expire)?);
         }
         let mut genuine = Vec::new();
+        let mut fresh_token: Option<crate::nsim::Minted> = None;
         // D: connect, capture a payload for it, then disconnect (either side)
         let w_d = connect(&mut srv, &mut clients[D])?;
         let id_d = clients[D].minted.token.client_id;
@@ -272,6 +275,7 @@ impl World {
             let enc = |p: OPacket, seq: u64, key: [u8; 32]| p.encode(protocol, Some((seq, &key))).ok_or("encode");
             let fresh = mint_for(&mut r, &srv, base_id ^ 0x5555, timeout, expire);
             genuine.push(Genuine { kind: "request", bytes: request_of(&fresh), home: Tgt::SrvUnknown, session: None });
+            fresh_token = Some(fresh);
             genuine.push(Genuine { kind: "request", bytes: req_p.clone(), home: Tgt::SrvFrom(P), session: Some(P) });
             genuine.push(Genuine { kind: "request", bytes: req_r.clone(), home: Tgt::SrvFrom(R), session: Some(R) });
             genuine.push(Genuine { kind: "request", bytes: w_c.request.clone(), home: Tgt::SrvFrom(C), session: Some(C) });
@@ -306,6 +310,7 @@ impl World {
             resp_r,
             tails,
             genuine,
+            fresh: fresh_token,
             n_payload: 0,
             seed,
         };
@@ -424,6 +429,13 @@ impl World {
             let mut cli = new_cli(r, &self.srv, u_id, self.u_addr, 15, 120).map_err(|e| ("srv-unknown", e))?;
             connect(&mut self.srv, &mut cli).map_err(|e| ("srv-unknown", e))?;
             genuine_up(&mut self.srv, &mut cli, b"u-after").map_err(|e| ("srv-unknown", e))?;
+        }
+        if let Some(m) = self.fresh.take() {
+            // the token whose request (and forged look-alikes copying its tag) were only ever presented in
+            // non-authentic form must still be usable, from an address of its own
+            let f_addr = client_addr(r, 977);
+            let mut cli = Cli::new(self.srv.now, m, f_addr).map_err(|e| ("srv-unknown", e))?;
+            connect(&mut self.srv, &mut cli).map_err(|e| ("srv-unknown", format!("never-presented genuine token no longer connects: {e}")))?;
         }
         if !self.clients[D].c.is_disconnected() {
             return Err(("cli-disconnected", "disconnected client came back to life".into()));
